@@ -139,14 +139,33 @@ func rawDecK(b []byte) (uint8, bool) {
 	return b[0]<<4 | b[1], true
 }
 
-func codecs(sc *script) (kvstore.ObjectToBytes[uint8], kvstore.BytesToObject[uint8], kvstore.ObjectToBytes[uint16], kvstore.BytesToObject[uint16]) {
+// codecs: mode "" = every Encode allocates a fresh slice; "scratch" = each encoder (one for keys, one for values)
+// serialises into ITS OWN reusable scratch buffer and returns a slice of it, valid until that encoder's next call
+// (a failed call leaves the buffer scribbled): whoever keeps the bytes (the store below, a cache) must have copied them.
+// (Zero-copy DEcoders do not exist for the scalar K/V of this harness: uint8/uint16 cannot alias their input.)
+func codecs(sc *script, mode string) (kvstore.ObjectToBytes[uint8], kvstore.BytesToObject[uint8], kvstore.ObjectToBytes[uint16], kvstore.BytesToObject[uint16]) {
+	kbuf, vbuf := make([]byte, 0, 8), make([]byte, 0, 8)
+	out := func(buf *[]byte, b []byte) []byte {
+		if mode != "scratch" {
+			return b
+		}
+		*buf = append((*buf)[:0], b...)
+		return *buf
+	}
+	scribble := func(buf *[]byte) {
+		if mode == "scratch" {
+			*buf = append((*buf)[:0], 0xEE, 0xEE, 0xEE)
+		}
+	}
 	ek := func(k uint8) ([]byte, error) {
 		if sc.next() {
+			scribble(&kbuf)
 			return nil, sc.err(errInjected)
 		}
 		if b, ok := rawEncK(k); ok {
-			return b, nil
+			return out(&kbuf, b), nil
 		}
+		scribble(&kbuf)
 		return nil, sc.err(errUnencodable)
 	}
 	dk := func(b []byte) (uint8, int, error) {
@@ -160,11 +179,13 @@ func codecs(sc *script) (kvstore.ObjectToBytes[uint8], kvstore.BytesToObject[uin
 	}
 	ev := func(v uint16) ([]byte, error) {
 		if sc.next() {
+			scribble(&vbuf)
 			return nil, sc.err(errInjected)
 		}
 		if b, ok := rawEncV(v); ok {
-			return b, nil
+			return out(&vbuf, b), nil
 		}
+		scribble(&vbuf)
 		return nil, sc.err(errUnencodable)
 	}
 	dv := func(b []byte) (uint16, int, error) {
@@ -220,6 +241,7 @@ type kcase struct {
 	Kind      string     `json:"kind"` // tv ts
 	Tag       string     `json:"tag"`
 	Faults    string     `json:"faults"`               // e.g. "00100"
+	Codec     string     `json:"codec,omitempty"`      // "" fresh slice per Encode; "scratch": encoders return slices of reused scratch buffers
 	Shapes    []int      `json:"shapes,omitempty"`     // shape of the k-th error handed to the code under test (cyclic; none = bare), see errs.go
 	InitRaw   []int      `json:"init_raw,omitempty"`   // tv: raw bytes under the key
 	InitThere bool       `json:"init_there,omitempty"` // tv: key present initially
@@ -382,7 +404,7 @@ func runTV(c kcase) (obs []tvObs, why string) {
 	}
 	sc := &script{bits: faultBits(c.Faults), sh: &shaper{shapes: c.Shapes}}
 	defer func() { lastShapeUse = sc.sh.used }()
-	_, _, ev, dv := codecs(sc)
+	_, _, ev, dv := codecs(sc, c.Codec)
 	tv := kvstore.NewTypedValue[uint16](&faultStore{KVStore: inner, sc: sc}, tvKey, ev, dv)
 	fail := func(i int, format string, a ...any) {
 		if why == "" {
@@ -651,7 +673,7 @@ func runTS(c kcase) (obs []tsObs, why string) {
 	}
 	sc := &script{bits: faultBits(c.Faults), sh: &shaper{shapes: c.Shapes}}
 	defer func() { lastShapeUse = sc.sh.used }()
-	ek, dk, ev, dv := codecs(sc)
+	ek, dk, ev, dv := codecs(sc, c.Codec)
 	ts := kvstore.NewTypedStore[uint8, uint16](&faultStore{KVStore: inner, sc: sc}, ek, dk, ev, dv)
 	fail := func(i int, format string, a ...any) {
 		if why == "" {
@@ -903,6 +925,9 @@ func genTV(r *vx.Rng, n int) kcase {
 	}
 	c.Faults = genFaults(r, 4*n)
 	c.Shapes = genShapes(r)
+	if r.Chance(1, 2) {
+		c.Codec = "scratch"
+	}
 	return c
 }
 
@@ -950,6 +975,9 @@ func genTS(r *vx.Rng, n int) kcase {
 	}
 	c.Faults = genFaults(r, calls)
 	c.Shapes = genShapes(r)
+	if r.Chance(1, 2) {
+		c.Codec = "scratch"
+	}
 	return c
 }
 
@@ -977,6 +1005,9 @@ func directed() []kcase {
 		{Kind: "tv", Tag: "fault-looks-like-notfound", Faults: "1001", Shapes: []int{17, 18}, TV: []tvop{{K: "cmp", F: "incr"}, {K: "get"}, {K: "cmp", F: "incr"}, {K: "get"}}},
 		{Kind: "tv", Tag: "fail-looks-like-notchanged", InitThere: true, InitRaw: enc(7), Shapes: []int{1, 1, 17, 18, 17}, TV: []tvop{{K: "cmp", F: "fail"}, {K: "cmp", F: "failex"}, {K: "cmp", F: "fail"}, {K: "get"}}},
 		{Kind: "ts", Tag: "get-notfound-in-tree", Shapes: []int{11, 7, 15}, TS: []tsop{{K: "get", Key: 0x10}, {K: "set", Key: 0x10, V: 2}, {K: "get", Key: 0x11}, {K: "get", Key: 0x10}, {K: "del", Key: 0x10}, {K: "get", Key: 0x10}}},
+		// encoders that reuse a scratch buffer: the stored bytes must not alias what the encoder handed out
+		{Kind: "ts", Tag: "scratch-two-keys", Codec: "scratch", TS: []tsop{{K: "set", Key: 0x01, V: 1}, {K: "set", Key: 0x10, V: 2}, {K: "get", Key: 0x01}, {K: "set", Key: 0x11, V: 65535}, {K: "get", Key: 0x10}, {K: "iter", Prefix: []int{}, Limit: 100}}},
+		{Kind: "tv", Tag: "scratch-failed-encode", Codec: "scratch", Faults: "0000001", TV: []tvop{{K: "set", V: 7}, {K: "set", V: 65535}, {K: "get"}, {K: "cmp", F: "const", V: 65535}, {K: "cmp", F: "incr"}, {K: "cmp", F: "incr"}, {K: "get"}}},
 		{Kind: "ts", Tag: "iterate", TS: []tsop{{K: "set", Key: 0x11, V: 1}, {K: "set", Key: 0x10, V: 2}, {K: "set", Key: 0x01, V: 3}, {K: "iter", Prefix: []int{1}, Limit: 100}, {K: "iter", Prefix: []int{}, Back: true, Limit: 2}, {K: "rawset", RawK: []int{1, 16}, RawV: []int{0, 1}}, {K: "iter", Prefix: []int{1}, Limit: 100}, {K: "iterkeys", Prefix: []int{1}, Back: true, Limit: 100}, {K: "delprefix", Prefix: []int{1}}, {K: "iter", Prefix: []int{}, Limit: 100}}},
 		{Kind: "ts", Tag: "faults", Faults: "0000010000000100001", TS: []tsop{{K: "set", Key: 0x11, V: 1}, {K: "set", Key: 0x10, V: 2}, {K: "get", Key: 0x10}, {K: "get", Key: 0x10}, {K: "iter", Prefix: []int{}, Limit: 100}, {K: "del", Key: 0x10}, {K: "del", Key: 0x10}, {K: "has", Key: 0x10}}},
 	}
@@ -1036,6 +1067,7 @@ func emit(cf *vx.CasesFile, st *vx.Stats, c kcase) {
 			st.Sample(map[string]any{"case": c, "observed": vx.ListOf(obs, tsObs.coq)}, 4)
 		}
 	}
+	st.Count("codec:" + map[bool]string{true: "fresh", false: c.Codec}[c.Codec == ""])
 	for sh, k := range lastShapeUse {
 		for ; k > 0; k-- {
 			st.Count(fmt.Sprintf("err-shape:%02d", sh))
@@ -1081,7 +1113,7 @@ const header = "From Coq Require Import NArith List Bool.\nFrom Verif.C06_Typed 
 const footer = "Definition M := Eval vm_compute in mismatches cases.\nPrint M.\n"
 var lastShapeUse []int // shapes handed out in the last history (statistics only)
 
-const rule = "random histories on a fresh TypedValue[uint16] (Get/Has/Set/Delete/Compute with 6 callbacks; initial raw key absent/valid/undecodable/with trailing bytes) and on a TypedStore[uint8,uint16] (Get/Has/Set/Delete/Iterate/IterateKeys/DeletePrefix/Clear + raw writes of malformed entries; 6 keys, 7 prefixes) over mapdb behind a fault-injecting KVStore and fault-injecting codecs sharing one fault script (density 0, 1/20, 1/7 or 1/3 per history); every error handed to the code under test (ErrKeyNotFound of the store below, injected faults, codec failures, ErrTypedValueNotChanged and failures of the compute callbacks) is presented in the shape the case prescribes for it: bare, wrapped once/twice, inside Join/Chain/Wrapf-with-error-argument/double-%w trees (sentinel first, last, nested), next to errors with the text of a sentinel (19 shapes, 30 % of the histories all bare); distinct = distinct (initial store, script, history); non-trivial = TypedValue: at least one successful write and one error other than not-found; TypedStore: at least one successful Set and one iteration that delivered an entry or an error"
+const rule = "random histories on a fresh TypedValue[uint16] (Get/Has/Set/Delete/Compute with 6 callbacks; initial raw key absent/valid/undecodable/with trailing bytes) and on a TypedStore[uint8,uint16] (Get/Has/Set/Delete/Iterate/IterateKeys/DeletePrefix/Clear + raw writes of malformed entries; 6 keys, 7 prefixes) over mapdb behind a fault-injecting KVStore and fault-injecting codecs sharing one fault script (density 0, 1/20, 1/7 or 1/3 per history); every error handed to the code under test (ErrKeyNotFound of the store below, injected faults, codec failures, ErrTypedValueNotChanged and failures of the compute callbacks) is presented in the shape the case prescribes for it: bare, wrapped once/twice, inside Join/Chain/Wrapf-with-error-argument/double-%w trees (sentinel first, last, nested), next to errors with the text of a sentinel (19 shapes, 30 % of the histories all bare); in half of the histories the key and value encoders return slices of their own reused scratch buffer (scribbled by a failed call) instead of fresh slices; distinct = distinct (initial store, script, history); non-trivial = TypedValue: at least one successful write and one error other than not-found; TypedStore: at least one successful Set and one iteration that delivered an entry or an error"
 
 func main() {
 	if len(os.Args) < 2 {
